@@ -253,6 +253,32 @@ pub fn gen_c07(rng: &mut Rng, tier: Tier) -> Case {
         c.knobs.raw_threshold = Some(1 << 20);
         c.knobs.init_cap = c.knobs.init_cap.map(|x| x.min(4096));
         c.mf = *rng.pick(&[MergeKind::Join, MergeKind::Concat, MergeKind::First, MergeKind::Last]);
+    } else if rng.chance(1, 20) {
+        // many spills under a large chunk limit: a buffer that holds two or three entries, a limit of
+        // 33..129 chunks that is reached once or several times, a handful of keys present in every
+        // chunk, and a merge function that shows the order of the values
+        let max = *rng.pick(&[33usize, 64, 65, 66, 70, 100, 128, 129]);
+        let thr = *rng.pick(&[64usize, 80, 96, 128]);
+        let pool: Vec<Vec<u8>> = (0..rng.urange(1, 4)).map(|i| vec![b'a' + i as u8; rng.urange(1, 3)]).collect();
+        let n = rng.urange(2 * max + 10, 6 * max);
+        let mut ins = Vec::with_capacity(n);
+        for i in 0..n {
+            let k = pool[rng.usize_below(pool.len())].clone();
+            ins.push((B(k), B(gen::record(i as u32, rng.urange(0, 4)))));
+        }
+        c.inserts = Entries::Literal(ins);
+        c.knobs.raw_threshold = Some(thr);
+        c.knobs.allow_realloc = false;
+        c.knobs.init_cap = None;
+        c.knobs.max_nb_chunks = Some(max);
+        c.knobs.creator = 0;
+        c.knobs.chunk_codec = *rng.pick(&[None, Some(0), Some(5)]);
+        c.knobs.unstable = false;
+        c.alt_knobs.truncate(1);
+        for a in c.alt_knobs.iter_mut() {
+            a.unstable = false;
+        }
+        c.mf = *rng.pick(&[MergeKind::Concat, MergeKind::Join]);
     }
     Case::Sort(c)
 }
